@@ -489,3 +489,194 @@ class GSplitParseExtend(_GScan):
     obligation_props = {'_GlobSplit.parse_extend.': ('C05', 'C10', 'C02'), 'glob._GlobSplit.parse_extend.': ('C10',)}
 
 ALL = [SplitReferences(), SplitSequence(), SplitParseExtend(), SplitSplit(), GSplitReferences(), GSplitSequence(), GSplitParseExtend()]
+
+
+# ------------------------------------------------------------------------------------------------- _GlobSplit.split: the scan and the cutting
+IntArr = z3.ArraySort(z3.IntSort(), z3.IntSort())
+
+
+class GlobSplitScan(_GScan):
+    """_GlobSplit.split (str patterns; the bytes route differs by the latin-1 codec calls, which the epilogue contract in splitc.py covers), scan loop and
+    cutting loop, for ALL pattern texts.  The scanner helpers are replaced by their contracts above, `_get_win_drive`, `store` and `_GlobPart` are abstract.
+    Proved: index discipline and progress of the scan; every recorded cut (pos, offset) lies behind the prefix, is a separator spelling of the text
+    (`/`, or a backslash followed by `/`, or by a backslash under the Windows rules), and the cuts are strictly increasing; the values handed to store()
+    are exactly the texts between consecutive cuts - together with the separator spellings they tile the pattern behind the drive / root prefix; every
+    value but the last is stored as a directory segment, the last (if not empty) as a non-directory segment."""
+    qual = '_GlobSplit.split'
+    props = ('C02', 'C05', 'C10')
+    allowed_raises = ('ValueError',)
+    forking = ('self._references', 'self._sequence', 'self.parse_extend')
+    loop_ghosts = {1: ('$idx', '$n', '$pos', '$off'), 2: ('$joined', '$nstored')}
+    mutates = {'self.store': [1]}
+    assumptions = ('_get_win_drive(pattern) is abstract in the scan contract: when it reports a drive, 0 < end <= len(pattern); when it reports a root without a drive, the pattern starts with '
+                   '`/` or with two backslashes (its own `startswith` test); store() and _GlobPart are abstract; the parts list is only handed on',)
+
+    def inputs(self):
+        self.s = z3.String('pattern')
+        self.i0 = z3.IntVal(0)
+        names = ('extend', 'win_drive_detect', 'bslash_abort', 'extmatchbase', 'matchbase', 'globstarlong', 'follow', 'no_abs')
+        fields = {n: Bool(z3.Bool('self_' + n)) for n in names}
+        fields['pattern'] = Str(self.s)
+        ghost = {'$idx': z3.IntVal(0), '$n': z3.IntVal(0), '$pos': z3.K(z3.IntSort(), z3.IntVal(0)), '$off': z3.K(z3.IntSort(), z3.IntVal(0)), '$joined': z3.StringVal(''),
+                 '$nstored': z3.IntVal(0), '$last': None, '$start0': None}
+        return dict(params=dict(self=selfobj()), fields=fields, pre=[], ghost=ghost)
+
+    # facts about recorded cut j
+    def cut_ok(self, st, j, idx, start0):
+        pos, off = z3.Select(st.ghost['$pos'], j), z3.Select(st.ghost['$off'], j)
+        bs, sl = z3.StringVal('\\'), z3.StringVal('/')
+        nxt = at(self.s, pos + 1)
+        return z3.And(pos >= start0, pos >= 0, pos + off < idx, z3.Or(off == 0, off == 1),
+                      z3.Implies(off == 0, at(self.s, pos) == sl),
+                      z3.Implies(off == 1, z3.And(at(self.s, pos) == bs, z3.Or(nxt == sl, z3.And(nxt == bs, pyvc.truthy(st.fields['bslash_abort']))))))
+
+    @property
+    def hooks(self):
+        me = self
+
+        def h_new(eng, node, st, args):
+            st.ghost['$idx'] = z3.IntVal(0)
+            return ObjV(z3.Const('i', Obj))
+
+        def h_advance(eng, node, st, args):
+            idx = st.ghost['$idx']
+            eng.oblige('_GlobSplit.split.advance_stays_inside_the_text', st, z3.And(args[0].t >= 0, idx + args[0].t <= z3.Length(me.s)), node)
+            st.ghost['$idx'] = idx + args[0].t
+            return NONE
+
+        def h_drive(eng, node, st, args):
+            root, none, end = z3.Bool('root_specified'), z3.Bool('drive_is_None'), z3.Int('drive_end')
+            st.pc += [z3.Implies(z3.Not(none), z3.And(end > 0, end <= z3.Length(me.s))),
+                      z3.Implies(z3.And(none, root), z3.Or(z3.PrefixOf(z3.StringVal('/'), me.s), z3.PrefixOf(z3.StringVal('\\\\'), me.s)))]
+            return V('tuple', None, items=[Bool(root), V('opt', None, isnone=none, inner=Str(z3.String('drive'))), Bool(z3.Bool('drive_slash')), Int(end)])
+
+        def h_part(eng, node, st, args):
+            return V('tuple', None, items=list(args))
+
+        def h_store(eng, node, st, args):
+            value, parts, donly = args
+            in_loop2 = 2 in st.ghost.get('$loops', ())
+            start = st.env['start'].t
+            if value.kind != 'str':
+                eng.oblige('_GlobSplit.split.store_receives_text', st, z3.BoolVal(False), node)
+                return NONE
+            if in_loop2:
+                k = st.ghost['$k2']
+                pos, off = z3.Select(st.ghost['$pos'], k), z3.Select(st.ghost['$off'], k)
+                s0 = st.ghost['$start0']
+                eng.oblige('_GlobSplit.split.each_value_is_the_text_between_two_consecutive_cuts_stored_as_a_directory_segment', st,
+                           z3.And(value.t == z3.SubString(me.s, start + 1, pos - start - 1), pyvc.truthy(donly)), node)
+                # the separator spelling of this cut, as far as it lies behind `start` (the first cut may sit AT the end of the drive prefix)
+                lo = z3.If(pos > start, pos, start + 1)
+                vlen = z3.If(pos > start, pos - start - 1, 0)
+                sepspell = z3.SubString(me.s, lo, pos + off + 1 - lo)
+                st.pc += [me.tiling(me.s, s0 + 1, start - s0, vlen), me.tiling(me.s, s0 + 1, lo - s0 - 1, pos + off + 1 - lo)]
+                st.ghost['$joined'] = z3.Concat(st.ghost['$joined'], value.t, sepspell)
+                st.ghost['$nstored'] = st.ghost['$nstored'] + 1
+            else:
+                eng.oblige('_GlobSplit.split.the_last_value_is_the_rest_of_the_text_stored_as_a_non-directory_segment', st,
+                           z3.And(value.t == z3.SubString(me.s, start + 1, z3.Length(me.s) - start - 1), z3.Not(pyvc.truthy(donly)), z3.Length(value.t) > 0), node)
+                st.ghost['$last'] = value
+            return NONE
+
+        def h_setitem(eng, target, st, val):
+            return None
+        return {'util.StringIter': h_new, 'i.index': self.h_index(), 'i.rewind': self.h_rewind('_GlobSplit.split'), 'i.advance': h_advance, 'self._references': self.c_references(),
+                'self._sequence': self.c_sequence(), 'self.parse_extend': self.c_parse_extend(), '_wcparse._get_win_drive': h_drive, '_GlobPart': h_part, 'self.store': h_store,
+                'isinstance': lambda eng, node, st, args: Bool(False), 'setitem': h_setitem}
+
+    @staticmethod
+    def tiling(s, b, m, n):
+        """s[b:b+m] + s[b+m:b+m+n] == s[b:b+m+n] (proved once for all s, b, m, n as the lemma below, used instantiated)"""
+        return z3.Implies(z3.And(b >= 0, m >= 0, n >= 0, b + m + n <= z3.Length(s)), z3.Concat(z3.SubString(s, b, m), z3.SubString(s, b + m, n)) == z3.SubString(s, b, m + n))
+
+    def lemmas(self):
+        s, b, m, n = z3.String('s!lemma'), z3.Int('b!lemma'), z3.Int('m!lemma'), z3.Int('n!lemma')
+        return [('_GlobSplit.split.lemma.consecutive_substrings_tile_(s[b:b+m]+s[b+m:b+m+n]==s[b:b+m+n])', ('C02', 'C05'), self.tiling(s, b, m, n))]
+
+    @property
+    def iters(self):
+        me = self
+
+        def it1(eng, node, st):
+            n = z3.Int(pyvc.fresh('n_iterations'))
+            st.pc.append(n >= 0)
+            return AbstractIter(n, lambda k: Str(z3.String(pyvc.fresh('c'))), exhaust_rule=lambda ex, k: ex.ghost['$idx'] == z3.Length(me.s))
+
+        def it2(eng, node, st):
+            return AbstractIter(st.ghost['$n'], lambda k: V('tuple', None, items=[Int(z3.Select(st.ghost['$pos'], k)), Int(z3.Select(st.ghost['$off'], k))]))
+        return {1: it1, 2: it2}
+
+    @property
+    def on_entry(self):
+        def e1(eng, st, node):
+            st.ghost['$start0'] = st.env['start'].t          # where the drive / root prefix ends (fixed from here on)
+        return {1: e1}
+
+    @property
+    def on_iter(self):
+        me = self
+
+        def o1(eng, st, k):
+            idx = st.ghost['$idx']
+            st.pc.append(idx < z3.Length(me.s))
+            st.env['c'] = Str(at(me.s, idx))
+            st.ghost['$idx'] = idx + 1
+            st.ghost['$iter_start'] = idx
+        return {1: o1}
+
+    @property
+    def ghost_update(self):
+        def on_append(st, result):
+            if result is not None and result.kind == 'tuple' and len(result.a['items']) == 2:
+                pos, off = result.a['items']
+                n = st.ghost['$n']
+                st.ghost['$pos'] = z3.Store(st.ghost['$pos'], n, pos.t)
+                st.ghost['$off'] = z3.Store(st.ghost['$off'], n, off.t if off.kind == 'int' else z3.BV2Int(off.t))
+                st.ghost['$n'] = n + 1
+        return {'call:append': on_append}
+
+    @property
+    def invariants(self):
+        me = self
+        j = z3.Int('j!inv')
+
+        def inv1(st, k):
+            idx, n, start = st.ghost['$idx'], st.ghost['$n'], st.env['start']
+            si = st.env['split_index']
+            start0 = st.ghost['$start0']
+            if start.kind != 'int' or si.kind != 'list':
+                return z3.BoolVal(False)
+            progress = idx > st.ghost['$iter_start'] if '$iter_start' in st.ghost else z3.BoolVal(True)
+            return z3.And(idx >= 0, idx <= z3.Length(me.s), n >= 0, si.a['length'] == n, start.t == start0, start0 >= -1, start0 <= idx, start0 < z3.Length(me.s) + z3.If(z3.Length(me.s) == 0, 1, 0), progress,
+                          z3.ForAll([j], z3.Implies(z3.And(j >= 0, j < n), z3.And(me.cut_ok(st, j, idx, start0),
+                                                                                z3.Implies(j + 1 < n, z3.Select(st.ghost['$pos'], j) + z3.Select(st.ghost['$off'], j) < z3.Select(st.ghost['$pos'], j + 1))))))
+
+        def inv2(st, k):
+            start = st.env['start']
+            start0 = st.ghost['$start0']
+            if start.kind != 'int':
+                return z3.BoolVal(False)
+            prev = z3.Select(st.ghost['$pos'], k - 1) + z3.Select(st.ghost['$off'], k - 1)
+            return z3.And(start.t == z3.If(k == 0, start0, prev), st.ghost['$joined'] == z3.SubString(me.s, start0 + 1, start.t - start0), st.ghost['$nstored'] == k)
+        return {1: (None, inv1), 2: (None, inv2)}
+
+    @property
+    def ensures(self):
+        me = self
+
+        def post(c):
+            start0 = c.st.ghost['$start0']
+            last = c.st.ghost['$last']
+            tail = last.t if last is not None else z3.StringVal('')
+            start = c.st.env['start'].t
+            n = z3.Length(me.s)
+            lemma = me.tiling(me.s, start0 + 1, start - start0, n - start - 1)          # the proved tiling lemma at the last cut
+            return z3.Implies(lemma, z3.And(z3.Concat(c.st.ghost['$joined'], tail) == z3.SubString(me.s, start0 + 1, n - start0 - 1), c.st.ghost['$nstored'] == c.st.ghost['$n']))
+        return [('_GlobSplit.split.the_stored_values_and_the_separator_spellings_between_them_tile_the_pattern_behind_the_drive_or_root_prefix', ('C02', 'C05'), post)]
+
+    exc_ensures = ()
+    obligation_props = {'_GlobSplit.split.': ('C02', 'C05', 'C10'), 'glob._GlobSplit.split.': ('C10',)}
+
+
+ALL.append(GlobSplitScan())
